@@ -11,6 +11,7 @@ summary / distance downstream, close+reopen (ArrayPool).  Checked per run:
     stores) — the compile/load model of C03 run by the driver;
   * a different batch_size or seed is refused.
 """
+import os
 import shutil
 import tempfile
 
@@ -360,11 +361,181 @@ def process(ctx, n):
                 ctx.corr_break('needed-per-batch', case, [inv[x] for x in need], [inv[x] for x in ran])
 
 
+# ---- the pool object itself: histories of pool operations against Model/Pool.lean (theorems save_open_roundtrip,
+# removed_store_stays_removed, add_batch_records, fill_holds_exactly, refill_changes_nothing, len_contains_after_fill) ----
+class _Ctx:
+    def __init__(self, b, seed):
+        self.batch_size, self.seed = b, seed
+
+
+def _observe_pool(pool, b):
+    names = list(pool.stores.keys())
+    stores = []
+    for n in names:
+        st = pool.stores[n]
+        if st is None:
+            stores.append(None)
+        elif isinstance(st, dict):
+            stores.append(sorted([int(i), int(np.asarray(v).ravel()[0])] for i, v in st.items()))
+        else:
+            stores.append([[i, int(np.asarray(st[i]).ravel()[0])] for i in range(len(st))])
+    ctxv = [pool.batch_size, pool.seed] if pool.has_context else None
+    return dict(names=names, stores=stores, len=len(pool), ctx=ctxv)
+
+
+def check_pool_model(ctx):
+    rng = ctx.rng
+    tmp = tempfile.mkdtemp(prefix='c05p-')
+    reqs, metas = [], []
+    try:
+        for it in range(ctx.budget(40, 400)):
+            array = it % 3 == 2
+            b, seed = rng.randint(1, 4), rng.randint(0, 99)
+            names = rng.sample(['sim', 'S1', 'S2', 'd', 't1'], rng.randint(1, 4))
+            pname = 'p%d' % it
+            cls = elfi.ArrayPool if array else elfi.OutputPool
+            pool = cls(list(names), name=pname, prefix=tmp)
+            ops, obs = [], []
+            tok = 10
+            if array:
+                pool.set_context(_Ctx(b, seed))
+            plan = []
+            if it < 4:      # forced histories: (save, remove a store whose file stays, save, open) and (save on a live pool, refill)
+                first = names[0]
+                plan = [dict(op='set_context', b=b, seed=seed)] * (0 if array else 1) + [
+                    dict(op='add_batch', idx=0, full=True), dict(op='add_batch', idx=1, full=True), dict(op='save'),
+                    dict(op='get_batch', idx=1), dict(op='remove_store', node=first), dict(op='save'), dict(op='open'),
+                    dict(op='get_batch', idx=0), dict(op='add_batch', idx=0, full=True), dict(op='add_batch', idx=2 if not array else 2, full=True),
+                    dict(op='add_store', node=first), dict(op='save'), dict(op='open'), dict(op='get_batch', idx=2)]
+                if it % 2:
+                    plan.insert(3, dict(op='open'))
+            n_ops = len(plan) or rng.randint(3, 12)
+            for k in range(n_ops):
+                cur = list(pool.stores.keys())
+                if plan:
+                    o = dict(plan[k])
+                else:
+                    kind = rng.choice(['add_batch'] * 4 + ['get_batch', 'get_batch', 'save', 'save', 'open', 'remove_store', 'add_store',
+                                                           'set_context', 'clear', 'remove_batch'])
+                    if array and kind in ('clear', 'remove_batch', 'set_context'):
+                        kind = 'add_batch'
+                    o = dict(op=kind)
+                    if kind in ('add_batch', 'get_batch', 'remove_batch'):
+                        o['idx'] = len(pool) if (array or rng.random() < 0.5) else rng.randint(0, 4)
+                        if kind != 'add_batch' or rng.random() < 0.35:
+                            o['idx'] = rng.randint(0, max(len(pool), 1))
+                        if array and kind == 'add_batch' and o['idx'] > len(pool):
+                            o['idx'] = len(pool)
+                        o['full'] = array or rng.random() < 0.7
+                    elif kind in ('remove_store', 'add_store'):
+                        o['node'] = rng.choice(['sim', 'S1', 'S2', 'd', 't1'])
+                    elif kind == 'set_context':
+                        o.update(b=b, seed=seed)
+                if o['op'] == 'add_batch':
+                    tok += 10
+                    keys = list(cur) if o.pop('full', True) else [n for n in cur if rng.random() < 0.6]
+                    keys = keys + ['other']
+                    rng.shuffle(keys)
+                    if array:
+                        # an NpyStore takes the next batch only: nodes whose store is shorter or longer would be refused by the store
+                        # itself (C06), not by the pool - keep every store at the same length
+                        lens = {len(pool.stores[n]) if pool.stores[n] is not None else 0 for n in cur}
+                        if len(lens) > 1:
+                            o = dict(op='get_batch', idx=0)
+                    if o['op'] == 'add_batch':
+                        o['batch'] = [[n, tok + j] for j, n in enumerate(keys)]
+                if array and o['op'] == 'add_store' and os.path.exists(os.path.join(tmp, pname, o['node'] + '.npy')):
+                    # an ArrayPool store re-added under the name of a file left behind by a removed store adopts that file's
+                    # content (documented NpyStore behaviour, outside the pool model): not part of these histories
+                    o = dict(op='get_batch', idx=0)
+                if array and o['op'] == 'open' and (not ops or ops[-1]['op'] != 'save' or obs[-1]['err']):
+                    o = dict(op='save')
+                err = None
+                extra = {}
+                try:
+                    if o['op'] == 'add_batch':
+                        pool.add_batch({n: (np.full(b, v) if array else v) for n, v in o['batch']}, o['idx'])
+                    elif o['op'] == 'get_batch':
+                        got = pool.get_batch(o['idx'])
+                        extra = dict(batch=[[n, int(np.asarray(v).ravel()[0])] for n, v in got.items()], contains=o['idx'] in pool)
+                    elif o['op'] == 'remove_batch':
+                        pool.remove_batch(o['idx'])
+                    elif o['op'] == 'add_store':
+                        pool.add_store(o['node'])
+                    elif o['op'] == 'remove_store':
+                        st = pool.remove_store(o['node'])
+                        if hasattr(st, 'close'):
+                            st.close()
+                    elif o['op'] == 'clear':
+                        pool.clear()
+                    elif o['op'] == 'set_context':
+                        pool.set_context(_Ctx(o['b'], o['seed']))
+                    elif o['op'] == 'save':
+                        pool.save()
+                    elif o['op'] == 'open':
+                        if array:
+                            for st in pool.stores.values():
+                                if hasattr(st, 'close'):
+                                    st.close()
+                        pool = cls.open(pname, prefix=tmp)
+                except (ValueError, KeyError, AttributeError, TypeError, FileNotFoundError, IndexError) as e:
+                    err = type(e).__name__
+                ob = dict(err=err, pool=_observe_pool(pool, b), **extra)
+                ops.append(o)
+                obs.append(ob)
+            if array:
+                for st in pool.stores.values():
+                    if hasattr(st, 'close'):
+                        st.close()
+            case = dict(kind='pool-model', array=array, names=names, b=b, seed=seed, ops=ops)
+            ctx.case(case, any(o['op'] == 'open' for o in ops))
+            for o in ops:
+                ctx.count('poolm.op', o['op'])
+            ctx.count('poolm.kind', 'ArrayPool' if array else 'OutputPool')
+            reqs.append(dict(op='C05.pool', stores=[[n, 'none'] for n in names], ctx=[b, seed] if array else None, ops=ops))
+            metas.append((case, obs))
+        if not ctx.driver_ok:
+            return
+        for (case, obs), a in zip(metas, ctx.lean.drive(reqs)):
+            if 'ok' not in a:
+                ctx.corr_break('pool.driver', case, 'an answer', a)
+                continue
+            for k, (ob, mo) in enumerate(zip(obs, a['ok'])):
+                mp = mo['pool']
+                mp['stores'] = [sorted(x) if x is not None else None for x in mp['stores']]
+                o = case['ops'][k]
+                same = ((ob['err'] is None) == (mo['err'] is None) and ob['pool'] == mp
+                        and (o['op'] != 'get_batch' or (sorted(ob['batch']) == sorted(mo['batch']) and ob['contains'] == mo['contains'])))
+                if same:
+                    continue
+                ctx.corr_break('pool.step', dict(case, at=k), mo, ob)
+                # the property on the pool itself: what a store holds for a batch never changes once written; save leaves the live
+                # pool as it is; an opened pool holds exactly what the saved one held; a removed store does not come back
+                prev = obs[k - 1]['pool'] if k else None
+                if prev is not None and o['op'] in ('save', 'get_batch') and ob['pool'] != prev:
+                    ctx.fail_input(dict(case, at=k), '%s changed the pool: %s -> %s' % (o['op'], prev, ob['pool']), prev, ob['pool'])
+                elif prev is not None and o['op'] == 'open' and ob['err'] is None and case['ops'][k - 1]['op'] == 'save' and ob['pool'] != prev:
+                    ctx.fail_input(dict(case, at=k), 'the pool opened right after save() differs from the saved one: %s -> %s' % (prev, ob['pool']),
+                                   prev, ob['pool'])
+                elif prev is not None and o['op'] == 'add_batch' and ob['err'] is None:
+                    for n, st_prev in zip(prev['names'], prev['stores']):
+                        if n in ob['pool']['names'] and st_prev:
+                            st_now = ob['pool']['stores'][ob['pool']['names'].index(n)] or []
+                            lost = [e for e in st_prev if e not in st_now]
+                            if lost:
+                                ctx.fail_input(dict(case, at=k), 'add_batch altered what store %s held: %s no longer there' % (n, lost), st_prev, st_now)
+                                break
+                break
+    finally:
+        shutil.rmtree(tmp, ignore_errors=True)
+
+
 def run(ctx):
     for _ in range(ctx.budget(12, 100)):
         if not ctx.enough():
             narrow_scenario(ctx, ctx.rng)
     process(ctx, ctx.budget(140, 800))
+    check_pool_model(ctx)
 
 
 def search(ctx):
